@@ -265,9 +265,28 @@ class Gen:
                     return ('cmp', op, ('var', r.choice(self.chars)), ('num', 1 + r.randrange(254)))
         return ('cmp', op, a, b)
 
+    def cmp16(self):
+        """comparison / truth test involving a 16-bit variable"""
+        r = self.rng
+        s = ('var', r.choice(self.shorts))
+        k = r.random()
+        if k < 0.3:
+            return s if r.random() < 0.5 else ('not', s)
+        other = r.choice([('num', r.choice([0, 1, 255, 256, 257, 1000, 2000, 32768, 65535])), ('var', r.choice(self.shorts)), ('var', r.choice(self.chars))])
+        # known finding: 16-bit `<=` / `>` mis-handle a borrow when the difference has a zero high byte
+        ops = ['==', '!=', '<', '>='] + (['>', '<='] if 'lte16' in self.probe else [])
+        op = r.choice(ops)
+        if op in ('<', '>=', '>', '<=') and other == ('num', 0):
+            other = ('num', 1)
+        if r.random() < 0.8 or op in ('<', '>='):
+            return ('cmp', op, s, other)
+        return ('cmp', op, other, s)
+
     def cond(self, depth=0):
         r = self.rng
         x = r.random()
+        if self.shorts and r.random() < 0.25:
+            return self.cmp16()
         if depth < 2 and x < 0.2:
             return ('land', self.cond(depth + 1), self.cond(depth + 1))
         if depth < 2 and x < 0.35:
@@ -281,6 +300,8 @@ class Gen:
         r = self.rng
         x = r.random()
         lv = self.lvalue()
+        if self.shorts and r.random() < 0.22:
+            return self.short_stmt()
         if x < 0.55:
             return ('expr', ('asg', lv, self.expr()))
         if x < 0.75:
@@ -294,6 +315,10 @@ class Gen:
             return self.short_stmt()
         return ('expr', ('asg', lv, self.atom()))
 
+    def assign_char(self):
+        r = self.rng
+        return ('expr', ('asg', ('var', r.choice(self.chars)), self.atom()))
+
     def short_stmt(self):
         r = self.rng
         s = r.choice(self.shorts)
@@ -305,7 +330,12 @@ class Gen:
         if x < 0.7:
             return ('expr', ('opasg', r.choice(['+', '-']), ('var', s), r.choice([('num', r.choice([1, 2, 255, 256, 300])), ('var', r.choice(self.chars))])))
         if x < 0.8:
-            return ('expr', (r.choice(['pre', 'post']), r.choice(['++', '--']), ('var', s)))
+            st = ('expr', (r.choice(['pre', 'post']), r.choice(['++', '--']), ('var', s)))
+            if r.random() < 0.4:
+                # a test of the same variable right after the increment / decrement
+                return ('block', [st, ('if', ('var', s) if r.random() < 0.5 else ('cmp', '!=', ('var', s), ('num', 0)),
+                                       ('block', [self.assign_char()]), None)])
+            return st
         if x < 0.9:
             return ('expr', ('asg', ('var', s), ('bin', r.choice(['+', '-']), ('var', r.choice(self.shorts)), r.choice([('num', r.choice([1, 256, 1000])), ('var', r.choice(self.shorts))]))))
         return ('expr', ('asg', ('var', r.choice(self.chars)), ('var', s)))
